@@ -49,6 +49,9 @@ checks = {
  "C15": ("exploration", "6/C15",
          "Seeded simulation inside the deterministic scheduler (ociunify's goroutines, channels, io.Pipe and selects are simulator tasks). Reads: generated pairs of member states (each blob/manifest in member 0, member 1, both or neither; tags agreeing, conflicting or one-sided; repositories known to one member) queried under both read policies: digest-addressed content readable iff a member has it, tags resolve iff the members agree or one has it (never a silent pick), listings are the sorted duplicate-free union, and both policies agree. Writes: generated histories (pushes, mounts, deletes, chunked uploads with close/resume) through the unifier over two equal members: the unifier behaves like one registry (reference model), every successful write is visible on both members, and the members stay observably equal; with one member made to fail a write, success must not be reported.",
          "deterministic simulation: seeded scheduler over instrumented goroutine/channel/select sites (testing/synctest), union oracle over generated member states, reference model plus member-equality invariant for writes, member write fault injection; choice-trace replay and minimisation"),
+ "C19": ("exploration", "6/C19",
+         "Seeded simulation of credential lookup: generated Docker-style config documents (explicit host keys, http/https URL keys with paths, several URL keys for one host, path-like keys; username/password, base64 auth incl. colons, NUL padding, missing colon and garbage; identitytoken, registrytoken; credsStore; credHelpers) with scripted helper behaviours (credentials, token, not found, missing binary, other error) are decoded through the real LoadWithEnv on a temporary file 8 times per document. The map range in the decoder (which extends the map while iterating) is a seeded permutation incl. whether inserted keys are visited, and lookups are issued in seeded orders with repeats. Oracle: a reference precedence function written from the statement, and equality of every lookup across all iteration and lookup orders.",
+         "deterministic simulation: the only nondeterminism the property depends on (map iteration order during insertion, lookup order) is put under the seeded choice source via the instrumented range statements; reference precedence oracle; choice-trace replay and minimisation"),
 }
 
 na = [
